@@ -87,6 +87,7 @@ MaxAgeOf(cc) == CASE cc \in {"maxage", "nostore_maxage", "private_maxage"} -> 60
                   [] cc = "maxage0" -> 0
                   [] cc = "maxage1" -> 1
                   [] cc = "maxage6" -> 6
+                  [] cc = "maxage_aged" -> 6       \* max-age=60 and Age: 54 - the response spent 54 s in other caches
                   [] OTHER -> -1
 HasFresh(h) == MaxAgeOf(h.cc) >= 0 \/ h.expires \in {"future", "past"}
 (* Expires = Date + 120 s (future) or Date - 120 s (past); the skew of Date against the real clock cancels *)
